@@ -95,7 +95,8 @@ def decodeVal (o : ROpts) (ctx : Ctx) (bs : Bytes) : ValRes :=
       match readBody (if tag = tagNull then -1 else asInt (tagLength tag)) r2 with
       | none => .err
       | some (b, r3) =>
-        if id < 0 then .panic "mapper-lookup-negative-id"
+        -- `MapperLookupCache.Lookup` returns nil for a negative id (repo commit 0b09f99cc)
+        if id < 0 then .err
         else match ctx.typeOfId id with
           | none => .err
           | some t =>
@@ -200,7 +201,8 @@ def readCompHeader (o : ROpts) (code : Nat) (bs : Bytes) : CompRes :=
       | .error _ => .stop .err
       | .ok (usize, r2) =>
         let size := asInt usize
-        if size > Int.ofNat o.maxSize then .stop .err
+        -- `size < 0 || size > p.maxSize` (the sign test: repo commit 0b09f99cc)
+        if size < 0 ∨ size > Int.ofNat o.maxSize then .stop .err
         else
           -- io.EOF from the peeker is let through with an empty compressed buffer
           match peekRead o.maxSize (wrapInt (n - (Int.ofNat (readCompExtra usize)))) r2 with
@@ -213,8 +215,7 @@ def readCompFrame (o : ROpts) (decomp : Bytes → Nat → Option Bytes) (code : 
   match readCompHeader o code bs with
   | .stop e => .stop e []
   | .ok format z size rest =>
-    if size < 0 then .stop (.panic "newbuffer-negative-length") [z.length]
-    else if format.toNat ≠ compressionFormatLZ4 then .stop .err [z.length, size.toNat]
+    if format.toNat ≠ compressionFormatLZ4 then .stop .err [z.length, size.toNat]
     else match decomp z size.toNat with
       | none => .stop .err [z.length, size.toNat]
       | some ub => if ub.length ≠ size.toNat then .stop .err [z.length, size.toNat]
@@ -276,9 +277,7 @@ theorem readFrame_progress {o : ROpts} {decomp : Bytes → Nat → Option Bytes}
         · cases h
         · split at h
           · cases h
-          · split at h
-            · cases h
-            · cases h; exact this
+          · cases h; exact this
   · unfold readPlainFrame at h
     split at h
     · cases h
